@@ -84,6 +84,12 @@ structure St where
 def derivedOf (c : Ctx) (k : MKey) : List Bytes :=
   (c.mods.filter fun m => m.src.idBase.any fun n => m.impKey n == some k).map (·.src.name)
 
+/-- a value that identifies the content of a compiled print across requests (the harness sends a hash of the text) -/
+def descHash (d : Desc × List Bytes) : BitVec 32 :=
+  let sep (l : List Bytes) : Bytes := l.foldl (fun acc x => acc ++ x ++ [31]) []
+  Jenkins.hash (sep d.1.feats ++ [30] ++ sep d.1.augBy ++ [30] ++ sep d.1.devBy ++ [30]
+    ++ (d.1.grp.foldl (fun acc g => acc ++ g.1 ++ [29] ++ sep g.2 ++ [28]) []) ++ [30] ++ sep d.2)
+
 def classOf (st : St) (k : MKey) (d : Desc × List Bytes) : St × Nat :=
   match st.classes.find? (fun e => e.1 == k) with
   | some (_, ds) =>
@@ -99,7 +105,10 @@ def snapshot (st : St) (rc : Nat) : St :=
   let (st1, parts) := st.ctx.mods.foldl (fun (acc : St × List String) m =>
     let (s0, ps) := acc
     let (s1, c) : St × String := match m.implemented, m.compiled with
-      | true, some (_, d) => let (s1, i) := classOf s0 m.key (d, derivedOf st.ctx m.key); (s1, "c" ++ toString i)
+      | true, some (_, d) =>
+        let dd := (d, derivedOf st.ctx m.key)
+        let (s1, i) := classOf s0 m.key dd
+        (s1, "c" ++ toString i ++ "." ++ hex32 (descHash dd))
       | _, _ => (s0, "c-")
     (s1, ps ++ [str m.src.name ++ "@" ++ (if m.src.rev.isEmpty then "-" else str m.src.rev) ++ ":I" ++ (if m.implemented then "1" else "0")
       ++ ":L" ++ String.singleton (hexDigit m.latest.toNat) ++ ":" ++ featStr m ++ ":" ++ c])) (st, [])
